@@ -20,6 +20,7 @@ from vlib import behave, bindlex, core
 from checks import c01_rename as c01
 
 ID = "C02"
+READY = True
 LEVEL = "exploration"
 RULE = ("same projects as C01 (pygen profile 'binding'); query points stratified by syntactic role; non-trivial = "
         "query whose answer has >= 2 locations; distinct = (role, binder owner kind, #locations bucket, #files "
@@ -293,6 +294,20 @@ def run_case(spec):
                         if missing or extra:
                             viol("binder-disagrees:" + ("missing" if missing else "extra"),
                                  "the reported set differs from the reference binder's occurrence set of this scope-local binding",
+                                 missing=missing[:4], extra=extra[:4], binding=str(me.binding))
+                            continue
+                    elif me and isinstance(me.binding[0], tuple) and me.binding[0] == ("module",):
+                        # module-level binding: two-sided on the LEXICAL occurrences of this module (names the
+                        # binder resolves); attribute tails, other modules and class-body loads (dynamic) are not judged
+                        lexical = {(path, occ_offset(o), occ_offset(o) + len(o.name)): o for o in lx}
+                        expected = sorted(k for k, o in lexical.items() if o.binding == me.binding)
+                        got = sorted(x for x in S if x in lexical and lexical[x].binding[0] != "<class-dynamic>")
+                        res.ev("binder_module_level_checked")
+                        missing = [x for x in expected if x not in S]
+                        extra = [x for x in got if x not in expected]
+                        if missing or extra:
+                            viol("binder-disagrees-module-level:" + ("missing" if missing else "extra"),
+                                 "for a module-level binding the reported occurrences inside the module differ from the reference binder's",
                                  missing=missing[:4], extra=extra[:4], binding=str(me.binding))
                             continue
                 res.outcome("exact-on-all-clauses")
